@@ -553,9 +553,9 @@ Definition mon_C03 (sc : scenario) (c0 : cluster) (out : outcome) : bool :=
       set_eqn l expect
       (* every successfully applied object is live with our annotation *)
       && forallb (fun i => memn i (managed fin)) ok_applied
-      (* objects whose delete succeeded are gone *)
+      (* objects whose delete succeeded are gone, unless a finalizer holds them *)
       && forallb (fun e => match e with
-                           | EPrune _ i AOk => match find_obj (objs fin) i with None => true | Some _ => false end
+                           | EPrune _ i AOk => match find_obj (objs fin) i with None => true | Some _ => u_fin (uinfo_of sc i) end
                            | _ => true end) evs
   end.
 
